@@ -126,8 +126,12 @@ def nt_tree(mode, case):
     return h(case[:100000])
 
 
+def nt_recv_or_clnt(mode, case):
+    return nt_recv(mode, case) if case.startswith("RS") else nt_clnt(mode, case)
+
+
 NONTRIVIAL = {"C04": nt_srvseq, "C05": nt_srvseq, "C12": nt_srvseq, "C09": nt_clnt, "C10": nt_clnt,
-              "C16": nt_tree, "C17": nt_tree, "C18": nt_tree, "C14": nt_ufs, "C15": nt_ufs, "C20": nt_log, "C01": nt_codec, "C02": nt_codec, "C13": nt_recv}
+              "C16": nt_tree, "C17": nt_tree, "C18": nt_tree, "C14": nt_ufs, "C15": nt_ufs, "C20": nt_log, "C01": nt_codec, "C02": nt_codec, "C13": nt_recv_or_clnt}
 
 
 def nontrivial_key(prop, mode, case):
@@ -236,7 +240,9 @@ PROPS = {
         "level_note": "Partial w.r.t. the kernel: path resolution is modelled lexically (sound for a tree without symlinks leaving it, which the property assumes and which the create check preserves). Trusted: Coq kernel; extraction; Go harness and the accessor. Print Assumptions: closed under the global context.",
     },
     "C13": {
-        "modes": [{"name": "recv", "harness": "recv", "modelcheck": "recv"}],
+        "clauses": ["C13"],
+        "modes": [{"name": "recv", "harness": "recv", "modelcheck": "recv"},
+                  {"name": "clnt", "harness": "clnt", "modelcheck": "clnt"}],
         "rule": "request streams of 8-40 independent messages (tiny and near-msize Twrite payloads, unknown fids, flushes, walks) with msize 64..4096 so the 8*msize buffer wraps and is reallocated, some ending in an oversize / undersize / undecodable frame; each stream is fed to the real server through a transport whose Read returns exactly the chosen segments: whole stream, every single split point (sampled in quick), one byte at a time, 30 random k-way splits. Oracle: delivered requests (tag, type, frame md5, payload md5 at delivery and at the end), reply bytes and close decision identical to the reference segmentation; correspondence: the Coq loop model on the same segments delivers the same frames and closes iff the server does. Non-trivial: >= 2 segments; distinct by (stream, segmentation).",
         "level_text": "Coq theorems (Props/C13.v): the model of both receive loops (buffer length/pos bookkeeping, inner framing loop, size check, reallocation, parameters re-read after a synchronous Tversion) delivers, for ANY segmentation of the stream into transport reads, exactly the frames of a framing specification that is a function of the concatenated stream only; it closes on a bad frame iff the specification does; it never issues an empty Read; the buffer stays within 8*msize. Unbounded in stream length, message count and segmentation. Tied to the code by running the real server under thousands of segmentations and comparing with the model.",
         "level_note": "Trusted: Coq kernel; translator for the 8*msize buffer factor and IOHDRSZ; extraction and OCaml driver; the Go harness (segment-exact fake net.Conn, hook recv.enqueued as delivery log). The loop model calls the decoder on the accumulated bytes and relies on C02's prefix-only theorem for the stale bytes behind pos; payload immutability (views are never overwritten) is checked by the harness (payload md5 at delivery vs. at the end), not proved; the client loop is proved on the model and tied through the C09/C10 client harness. Print Assumptions: closed under the global context.",
